@@ -605,6 +605,12 @@ func (g *gen) genCall(pl *Pipeline, env []envEntry, usedNames map[string]bool, i
 	c := &Call{Callee: callee}
 	if usedNames[callee] || g.pct(g.cfg.PAlias) {
 		c.Alias = g.upperName("AL")
+		if len(usedNames) > 0 && g.pct(35) {
+			// the id of a sibling call is a proper prefix of this call's id
+			// (X and X_AL7): name-based lookups must respect id boundaries
+			sib := SortedKeys(usedNames)
+			c.Alias = sib[g.r.Intn(len(sib))] + "_" + c.Alias
+		}
 	}
 	usedNames[c.Name()] = true
 	xenv := g.expandEnv(env)
